@@ -43,7 +43,7 @@ ASSUMPTIONS = [
     "pairs of the listed writer configurations (version, wrap, data_width, len_numeric_field, spacers, header_width, header styles), all with the default numeric format (equal precision)",
     "one symbolic header item per run (all characters symbolic, field lengths by exhaustive case-split); four curves x two rows of concrete floats incl. NaN",
 ]
-WITNESS_TARGETS = ["version-1.2-vs-2.0", "wrapped-vs-unwrapped", "well-item-swapped-on-disk"]
+WITNESS_TARGETS = ["version-1.2-vs-2.0", "wrapped-vs-unwrapped", "well-item-swapped-on-disk", "second-NULL-item-in-both-configurations"]
 EXCLUSIONS = {}
 
 
@@ -61,10 +61,10 @@ def tasks(tier):
     return out
 
 
-def build(ns, section, fields):
+def build(ns, section, fields, no_nan=False):
     las = ns.las.LASFile()
     las.append_curve("DEPT", np.array([999.5, 1000.0]), unit="M", descr="depth")  # the rows differ in digit count
-    las.append_curve("GR", np.array([10.5, np.nan]), unit="API", descr="gamma")
+    las.append_curve("GR", np.array([10.5, 11.5 if no_nan else np.nan]), unit="API", descr="gamma")
     las.append_curve("RHOB", np.array([2.25, 2.5]), unit="G/C3", descr="density")
     las.append_curve("NPHI", np.array([-0.125, 0.375]), unit="V/V", descr="porosity")
     las.well["COMP"].value = "ACME OIL"
@@ -92,14 +92,20 @@ def harness(ns, params):
             for x in (u, v, d):
                 if isinstance(x, SymStr):
                     core.assume(allc(x, not_char(".")))
+        nn = fresh_bool("no_nan")
         if params.get("letters_only"):
             core.assume(allc(m, lambda c: z.Or(z.in_range_c(c, 65, 90), z.in_range_c(c, 97, 122), z.in_range_c(c, 48, 57))))
             core.assume(z.Not(z.in_range_c(m.chars[0], 48, 57)))
-            core.assume(z.Not(z.Or([m.eq_expr(n) for n in ("STRT", "STOP", "STEP", "NULL")])))  # exact duplicates cannot be written (known finding of C03)
+            # exact duplicates of STRT/STOP/STEP cannot be written, nor a second NULL while the data hold a NaN (known finding of C03)
+            core.assume(z.Not(z.Or([m.eq_expr(n) for n in ("STRT", "STOP", "STEP")])))
+            core.assume(z.Or(z.Not(m.eq_expr("NULL")), nn.e))
+            core.witness("second-NULL-item-in-both-configurations", z.And(m.eq_expr("NULL"), nn.e))
+        else:
+            core.assume(z.Not(nn.e))
         a = fresh_int("config_a", 0, len(CONFIGS) - 1)
         b = fresh_int("config_b", 0, len(CONFIGS) - 1)
         core.assume(z.lt(a.e, b.e))
-        inputs = {"section": section, "shape": list(shape), "m": m, "u": u, "v": v, "d": d, "config_a": a, "config_b": b}
+        inputs = {"section": section, "shape": list(shape), "m": m, "u": u, "v": v, "d": d, "config_a": a, "config_b": b, "no_nan": nn}
         cx = core.ctx()
         cx.inputs = inputs
         apply_exclusions(inputs)
@@ -109,7 +115,7 @@ def harness(ns, params):
         core.witness("well-item-swapped-on-disk", ca["version"] != cb["version"] and section == "W")
         res = []
         for cfg in (ca, cb):
-            las = build(ns, section, (m, u, v, d))
+            las = build(ns, section, (m, u, v, d), bool(nn))
             try:
                 lines = W.write_lines(ns, las, **cfg)
                 res.append(read_snapshot(ns, lines))
@@ -143,7 +149,7 @@ def replay(i):
     res = []
     texts = []
     for k in (i["config_a"], i["config_b"]):
-        las = build(ns, section, (i["m"], i["u"], i["v"], i["d"]))
+        las = build(ns, section, (i["m"], i["u"], i["v"], i["d"]), bool(i.get("no_nan", False)))
         out = io.StringIO()
         try:
             las.write(out, **CONFIGS[k])
